@@ -28,6 +28,7 @@ package memfs
 import (
 	"io/fs"
 	"os"
+	"strings"
 	"time"
 
 	"github.com/avfs/avfs"
@@ -778,8 +779,8 @@ func (vfs *MemFS) Rename(oldpath, newpath string) error {
 	}
 
 	if oc, ok := oChild.(*dirNode); ok {
-		// The root directory can't be renamed.
-		if oc == oParent {
+		// The root directory can't be renamed and a directory can't be moved below itself.
+		if oc == oParent || strings.HasPrefix(nPI.Path(), oPI.Path()+string(vfs.PathSeparator())) {
 			return &os.LinkError{Op: op, Old: oldpath, New: newpath, Err: vfs.err.InvalidArgument}
 		}
 	}
